@@ -24,6 +24,7 @@ macro_rules! props {
 props! {
     "C02" => c02,
     "C03" => c03,
+    "C04" => c04,
     "C06" => c06,
     "C07" => c07,
     "C08" => c08,
